@@ -270,10 +270,6 @@ def ref_decode(t: T, d, fam: Family, ns):
         cls = ns[t.name]
         fields = all_fields(spec, fam)
         if not isinstance(d, dict):
-            if not fields:
-                # a class without fields reads nothing from its argument (the acceptance of
-                # non-mappings there is C05's known finding, not re-reported under C03)
-                return cls()
             raise RefError("non-mapping argument")
         kw = {}
         for f in fields:
